@@ -77,6 +77,16 @@ FACTS = {
         ('enter_failure_releases', 'elementpath/collations.py', 'CollationManager.__enter__', 'order', 'except locale.Error: ;; self._current_lc_collate = None ;; _locale_collate_lock.release() ;; raise xpath_error('),
         ('exit_restores_and_releases', 'elementpath/collations.py', 'CollationManager.__exit__', 'order', 'if self._current_lc_collate is not None: ;; locale.setlocale(locale.LC_COLLATE, self._current_lc_collate) ;; self._current_lc_collate = None ;; _locale_collate_lock.release()'),
     ],
+    'C09': [
+        ('normalize_space_xml_whitespace', 'elementpath/xpath1/_xpath1_functions.py', 'evaluate__normalize_space', 'has', "return ' '.join((x for x in re.split('[ \\t\\n\\r]+', arg) if x))"),
+        ('normalize_space_no_unicode_split', 'elementpath/xpath1/_xpath1_functions.py', 'evaluate__normalize_space', 'lacks', '.split()'),
+        ('translate_first_occurrence', 'elementpath/xpath1/_xpath1_functions.py', 'evaluate__translate', 'order', 'for k, char in enumerate(map_string): ;; if ord(char) not in table: ;; table[ord(char)] = trans_string[k] if k < len(trans_string) else None ;; return arg.translate(table)'),
+        ('substring_start_rounded', 'elementpath/xpath1/_xpath1_functions.py', 'evaluate__substring', 'order', "if math.isnan(start) or start == math.inf: ;; return '' ;; start = int(round_number(start)) - 1"),
+        ('substring_two_args', 'elementpath/xpath1/_xpath1_functions.py', 'evaluate__substring', 'order', 'if len(self) == 2: ;; return item[max(start, 0):]'),
+        ('substring_length', 'elementpath/xpath1/_xpath1_functions.py', 'evaluate__substring', 'order', "if math.isnan(length) or length <= 0: ;; return '' ;; if math.isinf(length): ;; return item[max(start, 0):] ;; stop = start + int(round_number(length)) ;; return item[slice(max(start, 0), max(stop, 0))]"),
+        ('substring_before_after', 'elementpath/xpath1/_xpath1_functions.py', 'evaluate__substring_before_or_after_functions', 'order', "index = arg1.find(arg2) ;; if index < 0: ;; return '' ;; return arg1[:index] ;; return arg1[index + len(arg2):]"),
+        ('starts_with', 'elementpath/xpath1/_xpath1_functions.py', 'evaluate__starts_with', 'has', 'return arg1.startswith(arg2)'),
+    ],
     'C10': [
         ('integer_checks_lexical', 'elementpath/datatypes/numeric.py', 'Integer.__new__', 'order', 'value = collapse_white_spaces(value) ;; if cls.pattern.match(value) is None:'),
         ('integer_lower_bound_inclusive', 'elementpath/datatypes/numeric.py', 'Integer.__init__', 'has', 'self < self._lower_bound'),
